@@ -337,3 +337,5 @@ def run(chk, tier):
     chk.guard('C19.t', lambda: c19.rule_token_spellings(chk, prog, tier))
     from props import c07
     chk.guard('C07.b', lambda: c07.rule_emitdata(chk, prog, tier))       # every byte of a data definition comes from the initialiser list or is zero: buffers the emitter builds are filled completely before they are printed
+    from props import c16
+    chk.guard('C16.a', lambda: c16.rule_map(chk, prog, tier))            # the tables never consult a slot that was not written: lookups do not depend on what malloc left in a grown array
